@@ -288,6 +288,8 @@ def make_games(ctx, harness, driver, n_games, n_bound_prefix):
         g.want = [sorted(ks)[0]] if ks else []
         for _ in range(n_bound_prefix): ks.add(r.randrange(0, n + 1))
         ks.add(0)
+        if n <= 30 and (g.style & 8):       # short pawn-structure games: every prefix against its own continuation (the property's quantifier)
+            ks.update(range(0, n + 1))
         if o.startswith("ok "):
             st = dict(x.split("=") for x in o.split(" | ")[-1].split())
             ep = [int(x) for x in st["epcapat"].split(",")] if st["epcapat"] != "-" else []
